@@ -1,4 +1,6 @@
 """C01 - the lazy cache is transparent (value independent of request history)."""
+import os
+import time
 import numpy as np
 
 from lib import common, harness, history as H, monitor, spacetimes as S
@@ -90,6 +92,11 @@ GUARDED = ['gtt', 'gtx', 'gty', 'gtz', 'gxx', 'gxy', 'gxz', 'gyy', 'gyz', 'gzz',
            'st_Weyl_down4', 'Weyl_Psi', 's_to_st', 'cleanup_cache']
 
 
+# cap on one walk (a request whose inner loops re-derive an evicted tensor
+# thousands of times is legitimate but slow); what was requested so far is judged
+WALK_BUDGET_S = {"quick": 150, "thorough": 600}
+
+
 def traced_functions():
     from aurel import core
     return [getattr(core.AurelCore, k) for k in GUARDED if hasattr(core.AurelCore, k)]
@@ -128,7 +135,10 @@ def run_walk(spec, n, ops, scale_gb=1.0, fresh_for=None, ledger=None, audit=None
             ledger.register({k: getattr(fd, k) for k in (
                 'xarray', 'yarray', 'zarray', 'x', 'y', 'z', 'r', 'theta', 'phi',
                 'cartesian_coords', 'spherical_coords')}, "grid:", "start")
+        t_walk = time.time()
         for i, op in enumerate(ops):
+            if time.time() - t_walk > WALK_BUDGET_S.get(os.environ.get('VERIF_TIER', 'quick'), 150):
+                break       # work cap: the remaining requests are simply not explored
             cached = frozenset(rel.data)
             ev0 = st.counters['evict_regular'] + st.counters['evict_memory']
             status, val = H.do_op(rel, op)
@@ -183,6 +193,9 @@ def run_case(spec):
                                          trace=trace if spec['hseed'] % 3 == 0 else None)
     res['monitor'] = {k: v for k, v in counters.items() if k != 'nested_max'}
     res['monitor']['arms'] = {k: v for k, v in trace.items()}
+    if len(recs) < len(ops):
+        res['monitor']['walks_truncated_by_work_cap'] = 1
+        res['notes'].append(f"walk stopped after {len(recs)} of {len(ops)} requests (work cap)")
     cands = []
     for r in recs:
         res['observations'] += 1
@@ -223,8 +236,12 @@ def run_case(spec):
             w2 = ((n2,) * 3, (slice(2 * mg, n2 - 2 * mg),) * 3)
         same_trace = ([e for e in events2] == [e for e in events[:len(events2)]])
         for r in cands:
-            r2 = recs2[r['i']]
             name = r['op'][1] if r['op'][0] == 'key' else 'helper ' + r['op'][1]
+            if r['i'] >= len(recs2):          # doubled-grid replay stopped by the work cap
+                res['notes'].append(f"tier2 replay did not reach {name}: not judged")
+                res['monitor']['tier2_not_reached'] = res['monitor'].get('tier2_not_reached', 0) + 1
+                continue
+            r2 = recs2[r['i']]
             det = {"history": [o[1] for o in ops[:r['i'] + 1]], "cache": spec['cache'],
                    "style": spec['style'], "vacuum": spec['vacuum'],
                    "err_N": r['err'], "scale": r['scale'], "order": p, "n1": spec['n1']}
